@@ -47,7 +47,7 @@ fn flush(out: &mut impl Write, plan: &[PlanRun], g: &Group) {
     let p = &plan[g.first];
     writeln!(
         out,
-        "{{\"row\":\"{}\",\"ri\":{},\"n\":{},\"pub\":\"{}\",\"pi\":{},\"runs\":{},\"distinct\":{},\"min_events\":{},\"max_events\":{},\"divs\":{}}}",
+        "{{\"row\":\"{}\",\"ri\":{},\"n\":{},\"pub\":\"{}\",\"pi\":{},\"runs\":{},\"distinct\":{},\"min_events\":{},\"max_events\":{},\"div_instr\":{},\"divs\":{}}}",
         p.row,
         p.ri,
         p.n,
@@ -57,10 +57,10 @@ fn flush(out: &mut impl Write, plan: &[PlanRun], g: &Group) {
         g.classes.len(),
         g.min_len,
         g.max_len,
+        g.div_instr,
         if g.divs.is_empty() { "null".to_string() } else { format!("[{}]", g.divs.join(",")) }
     )
     .unwrap();
-    let _ = g.div_instr;
 }
 
 fn main() {
@@ -75,6 +75,11 @@ fn main() {
             PlanRun { ri: f[0].parse().unwrap(), row: f[1].to_string(), n: f[2].parse().unwrap(), pi: f[3].parse().unwrap(), pubname: f[4].to_string(), secrets: f[6].to_string() }
         })
         .collect();
+    // optional: addresses of div/idiv instructions of the binary (from objdump); executed ones are counted per group
+    let divs: std::collections::HashSet<u64> = match args.get(4) {
+        Some(f) => std::fs::read_to_string(f).unwrap_or_default().lines().filter_map(|l| u64::from_str_radix(l.trim(), 16).ok()).collect(),
+        None => Default::default(),
+    };
     let stdin = std::io::stdin();
     let mut inp = std::io::BufReader::with_capacity(1 << 20, stdin.lock());
     let stdout = std::io::stdout();
@@ -85,6 +90,7 @@ fn main() {
     let mut seg = 0usize;
     let mut group: Option<Group> = None;
     let mut total_lines = 0u64;
+    let mut seg_divs = 0u64;
     loop {
         line.clear();
         let n = inp.read_until(b'\n', &mut line).unwrap();
@@ -128,6 +134,8 @@ fn main() {
             }
             let g = group.as_mut().unwrap();
             g.runs += 1;
+            g.div_instr += seg_divs;
+            seg_divs = 0;
             g.min_len = g.min_len.min(cur.len());
             g.max_len = g.max_len.max(cur.len());
             let mut h = 0xcbf2_9ce4_8422_2325u64;
@@ -192,6 +200,9 @@ fn main() {
         }
         if in_seg {
             total_lines += 1;
+            if kind == 0 && !divs.is_empty() && divs.contains(&addr) {
+                seg_divs += 1;
+            }
             cur.push((kind << 62) | ((size & 0x3f) << 56) | (addr & 0x00ff_ffff_ffff_ffff));
         }
     }
